@@ -30,13 +30,15 @@ def gen_double_cases(rng, n):
     for _ in range(n):
         m = doubles.random_model(rng, n_dim=2, cond=[None, 0])
         meth = str(rng.choice(METHODS))
-        shape = str(rng.choice(["vec-vec", "scalar-scalar", "vec-scalar", "vec1-vec1", "list-vec"]))
+        shape = str(rng.choice(["vec-vec", "scalar-scalar", "vec-scalar", "vec1-vec1", "list-vec", "vec-intvec"]))
         k = 1 if shape in ("scalar-scalar", "vec1-vec1") else int(rng.choice([2, 5, 17, 200]))
         if meth == "icdf":
             xs = rng.uniform(0.001, 0.999, k)
         else:
             xs = 10 ** rng.uniform(-1.5, 1.5, k)
         gs = 10 ** rng.uniform(-1.0, 1.3, k)
+        if shape == "vec-intvec":
+            gs = rng.integers(1, 20, k).astype(float)  # handed over as an integer-dtype array
         if shape == "vec-scalar":
             gs = np.full(k, gs[0])
         yield {"part": "A", "model": m.describe(), "method": meth, "shape": shape,
@@ -48,6 +50,8 @@ def call_shape(shape, xs, gs):
         return float(xs[0]), float(gs[0])
     if shape == "vec-scalar":
         return np.array(xs), float(gs[0])
+    if shape == "vec-intvec":
+        return np.array(xs), np.array(gs).astype(np.int64)
     if shape == "list-vec":
         # x as a plain list (array_like); `given` stays an ndarray: the dependence callables are user
         # code and only promise to work on numbers / arrays
@@ -106,10 +110,14 @@ def process_double_sampling(ck, rng):
     cond = model.distributions[1]
     k = int(rng.choice([1, 3, 40]))
     gs = 10 ** rng.uniform(-1, 1.3, k)
+    int_given = bool(rng.integers(0, 3) == 0)
+    if int_given:
+        gs = rng.integers(1, 20, k).astype(float)
     seed = int(rng.integers(0, 2**31))
-    got = np.asarray(cond.draw_sample(1, gs, random_state=seed), dtype=float).ravel()
+    got = np.asarray(cond.draw_sample(1, gs.astype(np.int64) if int_given else gs, random_state=seed), dtype=float).ravel()
     u = np.random.default_rng(seed).uniform(size=(1, k)).ravel()
-    case = {"part": "A", "kind": "draw_sample", "model": m.describe(), "g": [float(v) for v in gs], "seed": seed}
+    case = {"part": "A", "kind": "draw_sample", "model": m.describe(), "g": [float(v) for v in gs], "seed": seed,
+            "given_dtype": "int64" if int_given else "float64"}
     ck.case(case, nontrivial=m.n_dependent() >= 1, sample=False)
     ck.count("A_draw_sample")
     line = ["RUN", "cond"] + m.tokens() + ["1", "icdf", str(k)]
@@ -121,7 +129,11 @@ def process_double_sampling(ck, rng):
         ck.fail({"entry": "ConditionalDistribution.draw_sample", "predicate": "one_value_per_conditioning_value"}, case,
                 f"shape {got.shape} for {k} conditioning values")
     elif mv is None or not np.array_equal(mv.view(np.uint64), got.view(np.uint64)):
-        ck.diverge("conditional-sampling", case, f"impl {got[:3].tolist()} model {None if mv is None else mv[:3].tolist()}")
+        # the model value IS the template's quantile at the dependence values (Q(u) with the replayed uniforms):
+        # a mismatch means the sample does not follow the conditional distribution at these conditioning values
+        ck.fail({"entry": "ConditionalDistribution.draw_sample", "predicate": "sample_is_template_quantile_of_stream",
+                 "given_dtype": case["given_dtype"]}, case,
+                f"given {case['g'][:3]} ({case['given_dtype']}): samples {got[:3].tolist()} but template quantiles {None if mv is None else mv[:3].tolist()}")
 
 
 # --------------------------------------------------------------------------- (B)
